@@ -131,6 +131,82 @@ func ruleR38_3(c *Check) {
 	for name, why := range exc {
 		r.Except(name, why)
 	}
+	if os.Getenv("BVERIF_EXPLORE") == "guardedby" {
+		// exploration aid (not part of the verdict): fields of a struct with a mutex that are mostly,
+		// but not always, accessed with that mutex held (candidates to read; Engler-style inference)
+		type cnt struct {
+			held, unheld int
+			where        []string
+		}
+		stats := map[*types.Var]*cnt{}
+		muOf := map[*types.Var]*types.Var{}
+		for _, p := range w.Repo {
+			sc := p.Types.Scope()
+			for _, name := range sc.Names() {
+				tn, ok := sc.Lookup(name).(*types.TypeName)
+				if !ok {
+					continue
+				}
+				st, ok := tn.Type().Underlying().(*types.Struct)
+				if !ok {
+					continue
+				}
+				var mu *types.Var
+				for i := 0; i < st.NumFields(); i++ {
+					if t := st.Field(i).Type().String(); t == "sync.Mutex" || t == "sync.RWMutex" {
+						mu = st.Field(i)
+						break
+					}
+				}
+				if mu == nil {
+					continue
+				}
+				for i := 0; i < st.NumFields(); i++ {
+					if fl := st.Field(i); fl != mu {
+						muOf[fl] = mu
+					}
+				}
+			}
+		}
+		for _, f := range w.Fns {
+			if isCmdPkg(f) || f.Body == nil {
+				continue
+			}
+			rn := f.Root().Name
+			if strings.Contains(rn, ".new") || strings.Contains(rn, ".New") || strings.Contains(rn, ".Open") || strings.Contains(rn, ".open") || strings.HasSuffix(rn, ".init") {
+				continue
+			}
+			f := f
+			f.walk(func(x ast.Node) bool {
+				se, ok := x.(*ast.SelectorExpr)
+				if !ok {
+					return true
+				}
+				fl := w.fieldOf(se)
+				mu := muOf[fl]
+				if fl == nil || mu == nil {
+					return true
+				}
+				c := stats[fl]
+				if c == nil {
+					c = &cnt{}
+					stats[fl] = c
+				}
+				if f.HeldDeep(se, mu, 1, 2, nil) {
+					c.held++
+				} else {
+					c.unheld++
+					c.where = append(c.where, w.Position(se.Pos())+" "+f.Name)
+				}
+				return true
+			})
+		}
+		for fl, c := range stats {
+			if c.held >= 3 && c.unheld >= 1 && c.held*10 >= (c.held+c.unheld)*6 {
+				fmt.Fprintf(os.Stderr, "EXPLORE guarded-by %s.%s: held %d, not held %d: %s\n", fl.Pkg().Name(), fl.Name(), c.held, c.unheld, strings.Join(c.where, "; "))
+			}
+		}
+	}
 	if os.Getenv("BVERIF_EXPLORE") != "" {
 		// exploration aid (not part of the verdict): every potentially blocking operation executed
 		// while some lock is held in the function's own body
